@@ -191,6 +191,17 @@ class LiveCtx(Ctx):
             bases.append(b[tuple(self.ty(a) for a in bargs)] if bargs else b)
         else:
             bases.append(PaneBase)
+        # further bases (mixins): {'cls': [name, args], 'first': bool}
+        for m in d.get('mixins', []):
+            mname, margs = m['cls']
+            mb = self.classes[mname]
+            mb = mb[tuple(self.ty(a) for a in margs)] if margs else mb
+            if m.get('first'):
+                bases.insert(0, mb)
+            else:
+                bases.append(mb)
+        if len(bases) > 1 and PaneBase in bases:
+            bases.remove(PaneBase)
         if d.get('tvars'):
             bases.append(t.Generic[tuple(self.tvar(n) for n in d['tvars'])])
         kw = dict(d.get('opts') or {})
@@ -200,9 +211,26 @@ class LiveCtx(Ctx):
             kw['in_rename'] = tuple(kw['in_rename'])
         if 'custom' in kw:
             kw['custom'] = self.handlers(kw['custom'])
+        if d.get('mixins') or d.get('want_mro'):
+            # the linearisation (C3) of the bases, as `_process` will walk it: the pane classes of reversed(mro[1:]).
+            # Computed BEFORE the class statement runs (which may raise), from the bases' own `__mro__`.
+            mro = []
+            for base in reversed(c3_merge([list(b.__mro__) for b in bases if b is not t.Generic and t.get_origin(b) is not t.Generic]
+                                          + [[b for b in bases if b is not t.Generic and t.get_origin(b) is not t.Generic]])):
+                if not hasattr(base, '__pane_info__'):
+                    continue
+                bv = base.__dict__.get('__pane_boundvars__')
+                if bv is not None:
+                    mro.append({'alias': [base.__dict__['__origin__'].__name__, [[k.__name__, self.describe(v)] for k, v in bv.items()]]})
+                else:
+                    mro.append({'decl': base.__name__})
+            d['mro'] = mro
         cls = types.new_class(name, tuple(bases), kw, lambda n: n.update(ns))
         self.classes[name] = cls
         self.class_decl[name] = d
+        if 'mro' in d:
+            live = [b for b in cls.__mro__[1:] if hasattr(b, '__pane_info__')]
+            assert len(live) == len(d['mro']), 'harness: C3 linearisation differs from Python\'s'
         return cls
 
     def hook_of(self, cls):
@@ -311,6 +339,26 @@ class LiveCtx(Ctx):
                 'fieldTys': [self.describe(f.type) for f in info.fields],
                 'fieldConv': [None if f.converter is None else getattr(f.converter, 'cid', 'unknown') for f in info.fields],
                 'classHandlers': ch}
+
+
+def c3_merge(seqs):
+    """the C3 merge of linearisations (textbook algorithm; checked against Python's own `__mro__` after creation)"""
+    seqs = [list(s) for s in seqs if s]
+    out = []
+    while True:
+        seqs = [s for s in seqs if s]
+        if not seqs:
+            return out
+        for s in seqs:
+            cand = s[0]
+            if not any(cand in o[1:] for o in seqs):
+                break
+        else:
+            raise TypeError('inconsistent MRO')
+        out.append(cand)
+        for s in seqs:
+            if s and s[0] is cand:
+                del s[0]
 
 
 def cls_key(desc):
